@@ -87,8 +87,10 @@ def _r6(ctx):
     for x in ast.walk(loops[0]):
         if isinstance(x, ast.Name) and isinstance(x.ctx, ast.Store):
             lstores[x.id] = lstores.get(x.id, 0) + 1
-    via = {a.targets[0].id: a.value for a in ast.walk(loops[0]) if isinstance(a, ast.Assign) and len(a.targets) == 1 and isinstance(a.targets[0], ast.Name)
-           and lstores.get(a.targets[0].id) == 1 and any(isinstance(x, ast.Name) and re.fullmatch(D, x.id) for x in ast.walk(a.value))}
+    lookups = [a for a in ast.walk(loops[0]) if isinstance(a, ast.Assign) and len(a.targets) == 1 and isinstance(a.targets[0], ast.Name)
+               and any(isinstance(x, ast.Name) and re.fullmatch(D, x.id) for x in ast.walk(a.value))]
+    # (bound once -- or looked up once and given a default where the look-up found nothing: `e = D.get(k)` .. `if e is None: e = {..}`)
+    via = {a.targets[0].id: a.value for a in lookups if sum(1 for b in lookups if b.targets[0].id == a.targets[0].id) == 1}
 
     def through_locals(test):
         import copy
@@ -151,6 +153,13 @@ def _r6(ctx):
                             and isinstance(n.targets[0], ast.Name):
                         entry_alias.add(n.targets[0].id)
                         creates += 1
+                    # a local that stands for the species' entry: looked up (`e = D.get(k)` / `e = D[k]`), or stored as the entry (`D[k] = e`)
+                    if isinstance(n.targets[0], ast.Name) and ((isinstance(n.value, ast.Call) and isinstance(n.value.func, ast.Attribute) and n.value.func.attr == "get"
+                                                                and re.fullmatch(D, ast.unparse(n.value.func.value))) or
+                                                               (isinstance(n.value, ast.Subscript) and re.fullmatch(D, ast.unparse(n.value.value)))):
+                        entry_alias.add(n.targets[0].id)
+                    if isinstance(n.targets[0], ast.Subscript) and re.fullmatch(D, ast.unparse(n.targets[0].value)) and isinstance(n.value, ast.Name):
+                        entry_alias.add(n.value.id)
                 if isinstance(n, ast.Call) and isinstance(n.func, ast.Attribute):
                     base = ast.unparse(n.func.value)
                     if n.func.attr in ("update", "__setitem__") and re.fullmatch(D, base) and any(absent_guard(g, p_) for g, p_ in guards):
@@ -628,6 +637,9 @@ def _r2(ctx):
                             # an enumerate counter, or the parameter `idxfromfile` (int by default and annotation)
                             is_counter = fn is not None and any(isinstance(x, ast.For) and isinstance(x.iter, ast.Call) and ast.unparse(x.iter.func) == "enumerate"
                                                                 and isinstance(x.target, ast.Tuple) and ast.unparse(x.target.elts[0]) == v.id for x in ast.walk(fn))
+                            # (.. or the variable of a loop over range(..): a position)
+                            is_counter = is_counter or (fn is not None and any(isinstance(x, ast.For) and isinstance(x.target, ast.Name) and x.target.id == v.id and isinstance(x.iter, ast.Call)
+                                                                              and ast.unparse(x.iter.func) == "range" and node in list(ast.walk(x)) for x in ast.walk(fn)))
                             is_param = fn is not None and v.id == "idxfromfile" and v.id in [a.arg for a in fn.args.args]
                             ok = is_counter or is_param
                             role = "<enumerate counter>" if is_counter else v.id
@@ -720,6 +732,9 @@ def _r2(ctx):
     conv = None
     # by role: the local handed to Network(rate_modifier=...)
     passed = {ast.unparse(k.value) for c in ast.walk(h) if isinstance(c, ast.Call) and ast.unparse(c.func) == "Network" for k in c.keywords if k.arg == "rate_modifier"}
+    for _ in range(3):          # `rate_modifier = converted`: the local handed on may be a plain alias of the one that was converted
+        passed |= {node.value.id for node in ast.walk(h) if isinstance(node, ast.Assign) and isinstance(node.value, ast.Name)
+                   and any(isinstance(t, ast.Name) and t.id in passed for t in node.targets)}
     for node in ast.walk(h):
         if isinstance(node, ast.Assign) and any(isinstance(t, ast.Name) and t.id in passed for t in node.targets) and isinstance(node.value, ast.DictComp):
             conv = node
@@ -751,9 +766,9 @@ def _r2(ctx):
     # the Network(...) call receives the converted dict
     if conv is not None and not getattr(conv, "_inline", False):
         later = [c for c in ast.walk(h) if isinstance(c, ast.Call) and ast.unparse(c.func) == "Network" and c.lineno > conv.lineno]
-        ok = any(any(k.arg == "rate_modifier" and ast.unparse(k.value) == ast.unparse(conv.targets[0]) for k in c.keywords) for c in later)
+        ok = any(any(k.arg == "rate_modifier" and (ast.unparse(k.value) == ast.unparse(conv.targets[0]) or (isinstance(k.value, ast.Name) and k.value.id in passed)) for k in c.keywords) for c in later)
         # understood and wrong: Network(rate_modifier=<another local>); no such keyword at all (handed on otherwise) is not read here
-        other = any(k.arg == "rate_modifier" and isinstance(k.value, ast.Name) and k.value.id != ast.unparse(conv.targets[0]) for c in later for k in c.keywords)
+        other = any(k.arg == "rate_modifier" and isinstance(k.value, ast.Name) and k.value.id != ast.unparse(conv.targets[0]) and k.value.id not in passed for c in later for k in c.keywords)
         _three(ctx, ok, other, "R2", "RenderCommand.handle:Network(rate_modifier=)", (RENDER, later[0].lineno if later else conv.lineno),
                "the converted dictionary is what Network(...) receives", found="; ".join(ast.unparse(k.value)[:40] for c in later for k in c.keywords if k.arg == "rate_modifier"))
     # writer: string keys
@@ -769,6 +784,11 @@ def _r2(ctx):
         ctx.missing("R2", "BaseConfiguration.content:rate_modifier", (CONF, cfn.lineno), "no assignment of chemistry['rate_modifier']")
     else:
         v = _helpers_inlined(pkg, CONF, "BaseConfiguration", w.value)         # a one-expression helper is what it returns
+        for _ in range(2):            # .. and a local bound once in the writer is what it was bound to
+            if isinstance(v, ast.Name):
+                asg = [a for a in ast.walk(cfn) if isinstance(a, ast.Assign) and len(a.targets) == 1 and isinstance(a.targets[0], ast.Name) and a.targets[0].id == v.id]
+                if len(asg) == 1 and sum(1 for x in ast.walk(cfn) if isinstance(x, ast.Name) and x.id == v.id and isinstance(x.ctx, ast.Store)) == 1:
+                    v = _helpers_inlined(pkg, CONF, "BaseConfiguration", asg[0].value)
         okw = isinstance(v, ast.DictComp) and isinstance(v.key, ast.Call) and ast.unparse(v.key.func) == "str" and "_ratemodifier" in ast.unparse(v.generators[0].iter) \
             and len(v.generators) == 1 and not v.generators[0].ifs          # every entry, none filtered away
         if not isinstance(v, ast.DictComp) and not _whole_copy(v):
@@ -870,6 +890,9 @@ def _r3(ctx):
         base = ("attr", ("param", "self"), "reaction_list")
         ok = simp(lp.iter) == ("call", ("global", "enumerate"), (base,), ()) and st[0].value == ("idx", base, lp.id) and \
             st[0].extra.get("obj") == ("elem", base, lp.id) and not st[0].guards
+        # by position: `for i in range(len(L)): L[i].idxfromfile = i`
+        rng = ("call", ("global", "range"), (("call", ("global", "len"), (base,), ()),), ())
+        ok = ok or (simp(lp.iter) == rng and simp(st[0].value) == ("elem", rng, lp.id) and simp(st[0].extra.get("obj") or ()) == ("elem", base, lp.id) and not st[0].guards)
     # understood and wrong: one store in one loop over the reaction list whose value / guard differs (position + 1, a filtered pass)
     sure = len(st) == 1 and len(st[0].loops) == 1 and _plain(st[0].value, simp(st[0].loops[0].iter)) and _plain(*[c_ for c_, _ in st[0].guards])
     _three(ctx, ok, sure, "R3", "Network.reindex", (NETWORK, rfn.lineno), "reindex sets reac.idxfromfile = position for every reaction of reaction_list",
@@ -1139,6 +1162,11 @@ MUTANTS = [
         {"file": T, "old": "    def _assign_rates(\n", "new": "    @staticmethod\n    def _matching(table, indices):\n        known = set(indices)\n        return {k: v for k, v in table.items() if k in known}\n\n    def _assign_rates(\n"},
         {"file": T, "old": "        rate_modifier = network.rate_modifier\n", "new": "        rate_modifier = self._matching(network.rate_modifier, reactindices)\n"}], "rules": ["R3"]},
     {"name": "network-setattr-filtered-table", "file": NETWORK, "old": "        self._rate_modifier = rate_modifier.copy() if rate_modifier else {}", "new": '        setattr(self, "_rate_modifier", {k: v for k, v in rate_modifier.items() if v} if rate_modifier else {})', "rules": ["R7"]},
+    # hardening wave 4: the same defects inside the spellings accepted since
+    {'name': 'override-guard-clause-wrong-way', 'file': T, 'old': '        for idx, reac in enumerate(reactions):\n            for key, value in rate_modifier.items():\n                if key == reac.idxfromfile:\n                    logging.warning(f"Overwirte the rate of: `{reac}` with {value}")\n                    rateeqns[idx] = f"{rate_sym}[{idx}] = {value};"\n', 'new': '        for idx, reac in enumerate(reactions):\n            for key, value in rate_modifier.items():\n                if key == reac.idxfromfile:\n                    continue\n                logging.warning(f"Overwirte the rate of: `{reac}` with {value}")\n                rateeqns[idx] = f"{rate_sym}[{idx}] = {value};"\n', 'rules': ['R1']},
+    {'name': 'index-default-named-constant-zero', 'edits': [{'file': 'naunet/reactions/reaction.py', 'old': 'class Reaction', 'new': 'NO_INDEX = 0\n\n\nclass Reaction'}, {'file': 'naunet/reactions/reaction.py', 'old': '        idxfromfile: int = -1,\n', 'new': '        idxfromfile: int = NO_INDEX,\n'}], 'rules': ['R2']},
+    {'name': 'render-keys-by-loop-without-int', 'file': RENDER, 'old': '        rate_modifier = {int(key): value for key, value in rate_modifier.items()}\n', 'new': '        converted = {}\n        for key, value in rate_modifier.items():\n            converted[key] = value\n        rate_modifier = converted\n', 'rules': ['R2']},
+    {'name': 'reindex-helper-from-1', 'edits': [{'file': NETWORK, 'old': '        for idx, reac in enumerate(self.reaction_list):\n            reac.idxfromfile = idx\n', 'new': '        self._number_reactions()\n\n    def _number_reactions(self) -> None:\n        for idx, reac in enumerate(self.reaction_list):\n            reac.idxfromfile = idx + 1\n'}], 'rules': ['R3']},
 ]
 BENIGN = [
     # (a break out of the loop over the modifier keys skips only the remaining keys for this reaction: keys are distinct)
@@ -1173,6 +1201,18 @@ BENIGN = [
     {"name": "reindex-zip-imported-count", "edits": [{"file": NETWORK, "old": 'import shutil\n', "new": 'import shutil\nfrom itertools import count as _count\n'}, {"file": NETWORK, "old": 'for idx, reac in enumerate(self.reaction_list):\n            reac.idxfromfile = idx', "new": 'for pos, reac in zip(_count(), self.reaction_list):\n            reac.idxfromfile = pos'}]},
     {"name": "statement-percent-format", "file": T, "old": 'rateeqns[idx] = f"{rate_sym}[{idx}] = {value};"', "new": 'rateeqns[idx] = "%s[%d] = %s;" % (rate_sym, idx, value)'},
     {"name": "render-int-keys-dict-of-pairs", "file": RENDER, "old": "rate_modifier = {int(key): value for key, value in rate_modifier.items()}", "new": "rate_modifier = dict((int(key), value) for key, value in rate_modifier.items())"},
+    # hardening wave 4: everyday spellings (guard clauses, a test around the loops, named constants, a value bound to a local first, loop <-> comprehension)
+    {'name': 'override-under-table-test', 'file': T, 'old': '        for idx, reac in enumerate(reactions):\n            for key, value in rate_modifier.items():\n                if key == reac.idxfromfile:\n                    logging.warning(f"Overwirte the rate of: `{reac}` with {value}")\n                    rateeqns[idx] = f"{rate_sym}[{idx}] = {value};"\n', 'new': '        if rate_modifier:\n            for idx, reac in enumerate(reactions):\n                for key, value in rate_modifier.items():\n                    if key == reac.idxfromfile:\n                        logging.warning(f"Overwirte the rate of: `{reac}` with {value}")\n                        rateeqns[idx] = f"{rate_sym}[{idx}] = {value};"\n'},
+    {'name': 'override-guard-clause', 'file': T, 'old': '        for idx, reac in enumerate(reactions):\n            for key, value in rate_modifier.items():\n                if key == reac.idxfromfile:\n                    logging.warning(f"Overwirte the rate of: `{reac}` with {value}")\n                    rateeqns[idx] = f"{rate_sym}[{idx}] = {value};"\n', 'new': '        for idx, reac in enumerate(reactions):\n            for key, value in rate_modifier.items():\n                if key != reac.idxfromfile:\n                    continue\n                logging.warning(f"Overwirte the rate of: `{reac}` with {value}")\n                rateeqns[idx] = f"{rate_sym}[{idx}] = {value};"\n'},
+    {'name': 'rate-symbol-module-constant', 'edits': [{'file': T, 'old': 'class TemplateLoader:\n', 'new': 'RATE_SYMBOL = "k"\n\n\nclass TemplateLoader:\n'}, {'file': T, 'old': '        rate_sym = "k"\n', 'new': '        rate_sym = RATE_SYMBOL\n'}]},
+    {'name': 'init-ode-entry-bound-first', 'file': INIT, 'old': '                if ode_modifier.get(key):\n                    ode_modifier[key]["factors"].append(fact)\n                    ode_modifier[key]["reactants"].append(rdep)\n                else:\n                    ode_modifier[key] = {\n                        "factors": [fact],\n                        "reactants": [rdep],\n                    }\n', 'new': '                if ode_modifier.get(key):\n                    ode_modifier[key]["factors"].append(fact)\n                    ode_modifier[key]["reactants"].append(rdep)\n                else:\n                    entry = {"factors": [fact], "reactants": [rdep]}\n                    ode_modifier[key] = entry\n'},
+    {'name': 'init-ode-known-flag', 'file': INIT, 'old': '                if ode_modifier.get(key):\n                    ode_modifier[key]["factors"].append(fact)\n                    ode_modifier[key]["reactants"].append(rdep)\n                else:\n                    ode_modifier[key] = {\n                        "factors": [fact],\n                        "reactants": [rdep],\n                    }\n', 'new': '                known = key in ode_modifier\n                if not known:\n                    ode_modifier[key] = {"factors": [], "reactants": []}\n                ode_modifier[key]["factors"].append(fact)\n                ode_modifier[key]["reactants"].append(rdep)\n'},
+    {'name': 'init-ode-entry-looked-up-once', 'file': INIT, 'old': '                if ode_modifier.get(key):\n                    ode_modifier[key]["factors"].append(fact)\n                    ode_modifier[key]["reactants"].append(rdep)\n                else:\n                    ode_modifier[key] = {\n                        "factors": [fact],\n                        "reactants": [rdep],\n                    }\n', 'new': '                entry = ode_modifier.get(key)\n                if entry is None:\n                    entry = {"factors": [], "reactants": []}\n                    ode_modifier[key] = entry\n                entry["factors"].append(fact)\n                entry["reactants"].append(rdep)\n'},
+    {'name': 'render-int-keys-by-loop', 'file': RENDER, 'old': '        rate_modifier = {int(key): value for key, value in rate_modifier.items()}\n', 'new': '        converted = {}\n        for key, value in rate_modifier.items():\n            converted[int(key)] = value\n        rate_modifier = converted\n'},
+    {'name': 'reindex-by-position', 'file': NETWORK, 'old': 'for idx, reac in enumerate(self.reaction_list):\n            reac.idxfromfile = idx', 'new': 'for idx in range(len(self.reaction_list)):\n            self.reaction_list[idx].idxfromfile = idx'},
+    {'name': 'reindex-through-helper', 'edits': [{'file': NETWORK, 'old': '        for idx, reac in enumerate(self.reaction_list):\n            reac.idxfromfile = idx\n', 'new': '        self._number_reactions()\n\n    def _number_reactions(self) -> None:\n        for idx, reac in enumerate(self.reaction_list):\n            reac.idxfromfile = idx\n'}]},
+    {'name': 'index-default-named-constant', 'edits': [{'file': 'naunet/reactions/reaction.py', 'old': 'class Reaction', 'new': 'NO_INDEX = -1\n\n\nclass Reaction'}, {'file': 'naunet/reactions/reaction.py', 'old': '        idxfromfile: int = -1,\n', 'new': '        idxfromfile: int = NO_INDEX,\n'}]},
+    {'name': 'config-writer-str-keys-by-loop', 'file': CONF, 'old': '        chemistry["rate_modifier"] = {\n            str(key): value for key, value in self._ratemodifier.items()\n        }\n', 'new': '        ratemod = {}\n        for key, value in self._ratemodifier.items():\n            ratemod[str(key)] = value\n        chemistry["rate_modifier"] = ratemod\n'},
 ]
 
 
